@@ -348,6 +348,7 @@ R4_RULES = [
     ('R4-drain-set', r'(?P<e>%s)\s*\.\s*drain\s*\(\s*\)\s*\.\s*collect\s*\(\s*\)' % _E, r'vx_drain_set(&mut \g<e>)', None),
     ('R4-stake-waiters-zip', r'(?P<a>\b\w+)\s*\.\s*into_iter\(\)\s*\.\s*zip\(\s*(?P<b>\w+)\s*\.\s*into_iter\(\)\s*\)\s*\.\s*map\(\s*\|\(name, handler\)\|\s*\{\s*let stake = self\.committee\.stake\(&name\);\s*Self::waiter\(handler, stake\)\s*\}\s*\)\s*\.\s*collect\(\)', r'vx_stake_waiters(\g<a>, \g<b>, &self.committee)', None),
     ('R4-stake-waiters-pairs', r'(?P<a>\b\w+)\s*\.\s*into_iter\(\)\s*\.\s*map\(\s*\|\(name, handler\)\|\s*\{\s*let stake = self\.committee\.stake\(&name\);\s*Self::waiter\(handler, stake\)\s*\}\s*\)\s*\.\s*collect\(\)', r'vx_stake_waiters_pairs(\g<a>, &self.committee)', None),
+    ('R4-notify-reads', r'(?P<e>\b\w+)\s*\.\s*iter_mut\(\)\s*\.\s*map\(\s*\|\(x, y\)\|\s*y\.notify_read\(x\.to_vec\(\)\)\s*\)\s*\.\s*collect\(\)', r'vx_notify_reads(&mut \g<e>)', None),
     ('R4-retain-ge', r'\.\s*retain\s*\(\s*\|\s*k\s*,\s*_\s*\|\s*k\s*>=\s*(?P<r>\w+)\s*\)', r'.vx_retain_keys_ge(\g<r>)', None),
     ('R4-get-map-or-else-stake', r'(?P<e>%s)\s*\.\s*get\s*\(\s*(?P<k>\w+)\s*\)\s*\.\s*map_or_else\s*\(\s*\|\s*\|\s*0\s*,\s*\|\s*x\s*\|\s*x\s*\.\s*stake\s*\)' % _E,
      r'(match \g<e>.get(\g<k>) { None => 0, Some(x) => x.stake })', None),
